@@ -220,7 +220,7 @@ PROPS = {
         "trusted_base": COMMON_TB + ["specification-level model (point-set semantics, validity predicates); the Rust 2-D state machines are not transliterated: agreement is established point by point on a grid of representative instants/positions over an 8 x 4 cell universe"],
         "assumptions": COMMON_ASSUME + ["operands have the shape the library's own builders produce (elements = consecutive blocks in time order, consecutive elements with different space MOCs)",
             "termination / absence of unreachable!() in the Rust union are OBSERVED (panic is an answer), not proved"],
-        "rule": "random valid ST-MOCs over 8 time cells (depth 2) x 4 space cells (depth 0) with 0..4 elements, multi-range time MOCs, equal / empty operands: the three forms of the union "
+        "rule": "three passes (time depth 2; depth 61 from 0; depth 61 just below the top of the time domain) of random valid ST-MOCs over 8 time cells x 4 space cells (depth 0) with 0..4 elements, independent or RELATED operands (identical time MOCs / minus first or last cell; space = same, superset, subset, incomparable, union of the two previous ones), multi-range time MOCs, equal / empty operands: the three forms of the union "
                 "(or, into_or, iterator or) in both operand orders: point-set (85 grid points incl. every shared time boundary) against the specification, validSTB on every output, depths. "
                 "distinct_nontrivial = distinct op lines with a non-empty operand.",
         "explanation": "theorems on the union specification and the validity predicate; point-wise correspondence of the real operator",
@@ -228,7 +228,7 @@ PROPS = {
     "C09": {
         "trusted_base": COMMON_TB + ["specification-level model (point-set semantics, validity predicates); the Rust 2-D state machines are not transliterated: agreement is established point by point on a grid of representative instants/positions over an 8 x 4 cell universe"],
         "assumptions": COMMON_ASSUME + ["positions enter as space cells (the hash of a position is cdshealpix's)", "the store wrappers are thin and not driven separately"],
-        "rule": "random observation lists (0..6 (time range, cell) observations over 8 x 4 cells: overlapping and touching time ranges, simultaneous observations at different positions, first observation "
+        "rule": "three passes (time depth 2; depth 61 from 0; depth 61 near the top of the time domain) of random observation lists (0..6 (time range, cell) observations over 8 x 4 cells; four construction paths incl. the range-2D result converted by time_space_iter: overlapping and touching time ranges, simultaneous observations at different positions, first observation "
                 "not the earliest, duplicates) x buffer capacities {1,2,3,100}: both streaming builders and the range-2D path (create_from_time_ranges_spatial_coverage) against the specification on "
                 "the grid. distinct_nontrivial = distinct op lines with more than one observation.",
         "explanation": "theorems: specification = union of the products, order/duplicate independence, counterexample for the original make_consistent seed; point-wise correspondence of the three real paths",
